@@ -4,7 +4,10 @@ package props
 import (
 	"encoding/json"
 	"fmt"
+	"os"
+	"strconv"
 	"strings"
+	"time"
 
 	"verif/mc/core"
 	"verif/mc/tm"
@@ -118,10 +121,7 @@ func eachTerm(c *core.Ctx, r *core.Result, p plan, f func(t *tm.Term)) {
 	}
 	base += int64(len(ex))
 	// quirk pass (see tm.Op.QuirkOf)
-	for i, t := range tm.QuirkTerms() {
-		if q := tm.FindQuirk(t); q != nil && len(q.QuirkFor) > 0 && !contains(q.QuirkFor, c.ID) {
-			continue
-		}
+	for i, t := range tm.QuirkTermsFor(c.ID) {
 		if c.Mine(base + int64(i)) {
 			f(t)
 		}
@@ -315,8 +315,15 @@ var minCache = map[string]string{}
 // total), minimises it and records the violation keyed by
 // clause|minimal skeleton|strings, with the original and the minimal
 // term as replay payload.
+var slowMS, _ = strconv.Atoi(os.Getenv("VERIF_SLOW_MS"))
+
 func report(r *core.Result, t *tm.Term, extra map[string]interface{}, eval func(t *tm.Term) string) bool {
+	t0 := time.Now()
 	m := eval(t)
+	if slowMS > 0 && time.Since(t0) > time.Duration(slowMS)*time.Millisecond {
+		// development aid: name the states that dominate a run
+		fmt.Fprintf(os.Stderr, "SLOW %v %s\n", time.Since(t0).Round(time.Millisecond), t)
+	}
 	if m == "" {
 		return true
 	}
